@@ -439,7 +439,80 @@ def run(argv):
                     chk.traces += 1
         except Exception as e:
             chk.corr_break("driver", None, None, str(e)[:300])
+    file_level(chk, rng)
     return chk.finish()
+
+
+def file_level(chk, rng):
+    """whole KROME files through the generator: every rate of the emitted EvalRates, evaluated with the user variables the
+    file defines (`@var`, in file order - a later assignment of the same variable replaces the earlier one, as in KROME, where
+    the variable block precedes the rate block), equals the Fortran value of that line's expression"""
+    from naunet.network import Network
+    from .rendering import Rendered, render
+    from .ode_checks import reset_species_state
+    files = {
+        "var-reassigned": ["@common:user_crate", "@var:ksc = 2.d0", "@format:idx,R,R,P,Tmin,Tmax,rate", "1,H,H,H2,NONE,NONE,1.0d-10*ksc",
+                           "@var:ksc = 2.d0*sqrt(Tgas/3d2)", "2,H,E,H+,NONE,NONE,3.0d-11*ksc*user_crate", "3,H2,E,H,NONE,NONE,ksc**2*1d-12"],
+        "var-chain": ["@common:user_crate,user_av", "@var:a1 = 1.5d0*user_av", "@var:a2 = a1**2+1d0", "@format:idx,R,R,P,rate",
+                      "1,H,H,H2,1.0d-10*a2", "2,H,E,H+,a1/a2*user_crate", "3,H2,E,H,dexp(-1d0*a1)*1d-9"],
+    }
+    for label, lines in files.items():
+        d = chk.scratch / f"krome-{label}"
+        d.mkdir(parents=True, exist_ok=True)
+        (d / "net.krome").write_text("\n".join(lines) + "\n")
+        reset_species_state()
+        try:
+            with silenced():
+                net = Network(filelist=[str(d / "net.krome")], fileformats=["krome"], elements=["E", "H"], pseudo_elements=["g"])
+                render(net, "dense", d / "out")
+        except Exception as e:
+            chk.violation({"kind": "krome-file-refused", "file": label}, f"a well-formed KROME file was refused: {type(e).__name__}: {e}",
+                          input=lines)
+            continue
+        rd = Rendered(d / "out", "dense")
+        body = cparse.function_body((d / "out" / "src" / "naunet_rates.cpp").read_text(), "EvalRates")
+        decls = re.findall(r"\brealtype\s+(\w+)\s*=\s*([^;]+);", body)
+        rates = rd.rates("k")
+        # Fortran side: user variables in file order (last assignment wins), then each rate line
+        fvars, frates = {}, []
+        for l in lines:
+            if l.startswith("@var:"):
+                nm, rhs = l[5:].split("=", 1)
+                fvars[nm.strip()] = rhs.strip()
+            elif l and l[0].isdigit():
+                frates.append(l.split(",")[-1])
+        for trial in range(3):
+            base = {"Tgas": rng.uniform(20.0, 900.0), "user_crate": rng.uniform(0.5, 2.0), "user_av": rng.uniform(0.5, 2.0)}
+            fenv = dict(base)
+            fenv.update({"Te": base["Tgas"] * 8.617343e-5, "T32": base["Tgas"] / 300.0, "invT": 1.0 / base["Tgas"]})
+            try:
+                for nm, rhs in fvars.items():
+                    fenv[nm] = float(feval(fparse(rhs)[0], fenv))
+                want = [float(feval(fparse(fx)[0], fenv)) for fx in frates]
+            except (FReject, KeyError, ValueError, ZeroDivisionError, OverflowError):
+                break
+            cenv = dict(base)
+            try:
+                for nm, rhs in decls:
+                    if "->" in rhs:
+                        cenv.setdefault(nm, base.get(nm, 1.0))
+                    else:
+                        cenv[nm] = float(ceval.ev(cparse.parse_expr(rhs), cenv))
+                got = [float(ceval.ev(cparse.parse_expr(r), cenv)) for _, r, _ in rates]
+            except (cparse.CParseError, KeyError, ValueError, ZeroDivisionError, OverflowError) as e:
+                chk.corr_break("krome-file", {"file": label}, None, f"emitted EvalRates not evaluable: {e}")
+                break
+            chk.count(("krome-file", label, trial), nontrivial=True)
+            chk.hist["krome-file"] += 1
+            bad = [i for i, (g, w) in enumerate(zip(got, want)) if abs(g - w) > 1e-9 * max(abs(g), abs(w), 1e-300)]
+            if len(got) != len(want) or bad:
+                i = bad[0] if bad else 0
+                chk.violation({"kind": "krome-file-value-differs", "file": label},
+                              f"KROME file `{label}`: rate {i + 1} `{frates[i] if i < len(frates) else '?'}` has Fortran value "
+                              f"{want[i] if i < len(want) else None!r} under the file's @var assignments, the emitted code gives "
+                              f"{got[i] if i < len(got) else None!r}", input=lines,
+                              emitted_declarations=[f"{a} = {b}" for a, b in decls if "->" not in b][:12])
+                break
 
 
 if __name__ == "__main__":
